@@ -28,9 +28,15 @@ def _import():
 
 def innermost_pyxform_frame(tb) -> str:
     frames = traceback.extract_tb(tb)
-    for fr in reversed(frames):
-        if "/pyxform/" in fr.filename and "_verif" not in fr.filename:
-            return f"{os.path.basename(fr.filename)}:{fr.name}"
+    px = [fr for fr in frames if "/pyxform/" in fr.filename and "_verif" not in fr.filename]
+    if px:
+        # innermost pyxform frame plus its nearest pyxform caller in a different function (the crash *site*)
+        inner = px[-1]
+        sig = f"{os.path.basename(inner.filename)}:{inner.name}"
+        for fr in reversed(px[:-1]):
+            if (fr.filename, fr.name) != (inner.filename, inner.name):
+                return sig + f"<{os.path.basename(fr.filename)}:{fr.name}"
+        return sig
     if frames:
         fr = frames[-1]
         return f"{os.path.basename(fr.filename)}:{fr.name}"
